@@ -90,15 +90,15 @@ func init() {
 		},
 		{
 			ID:          "C03",
-			Rules:       []RuleUse{{Rule: "R-GATE", Bodies: []string{"v5", "codec"}, KeyHas: []string{"CreateMergePatch", "sink "}}, {Rule: "R-NIL", Bodies: []string{"v5"}, KeyHas: []string{"createArrayMergePatch", "createObjectMergePatch"}}, use("R-NUM", "v5", "codec"), {Rule: "R-POOLINIT", Bodies: []string{"codec"}, KeyHas: []string{"useNumber"}}, {Rule: "R-MAPORDER", Bodies: []string{"v5"}, KeyHas: []string{"getDiff", "matchesValue"}}, use("R-CMPSHAPE", "v5"), {Rule: "R-BOUNDS", Bodies: []string{"v5"}, KeyHas: []string{"createArrayMergePatch", "matchesArray"}}},
-			Explanation: "Decided for the v5 body: R-GATE (malformed input to CreateMergePatch is rejected before the validity-assuming parse), R-NIL over the create*MergePatch functions, R-NUM + R-POOLINIT/useNumber (numbers are decoded as literals, compared only by literal equality and written back unchanged — 'number literals are carried over unchanged'; two different literals can never compare equal through a machine number type), R-MAPORDER (the diff's map ranges have no order-sensitive effect). R-CMPSHAPE (rejection clause and completeness of the walk: mixed array/object roots return the mismatch error; unequal array lengths are rejected; every element pair goes through the object diff, whose error aborts; every successful return of getDiff has passed both the walk over the modified members and the walk over the original that emits removed members as null). R-BOUNDS over the pairwise array walks.",
+			Rules:       []RuleUse{{Rule: "R-GATE", Bodies: []string{"v5", "codec"}, KeyHas: []string{"CreateMergePatch", "sink "}}, {Rule: "R-NIL", Bodies: []string{"v5"}, KeyHas: []string{"createArrayMergePatch", "createObjectMergePatch"}}, use("R-NUM", "v5", "codec"), {Rule: "R-POOLINIT", Bodies: []string{"codec"}, KeyHas: []string{"useNumber"}}, {Rule: "R-MAPORDER", Bodies: []string{"v5"}, KeyHas: []string{"getDiff", "matchesValue"}}, use("R-CMPSHAPE", "v5"), {Rule: "R-BOUNDS", Bodies: []string{"v5"}, KeyHas: []string{"createArrayMergePatch", "matchesArray"}}, use("R-EXH", "v5"), {Rule: "R-PANIC", Bodies: []string{"v5"}, KeyHas: []string{"getDiff", "matchesValue", "matchesArray"}}},
+			Explanation: "Decided for the v5 body: R-GATE (malformed input to CreateMergePatch is rejected before the validity-assuming parse), R-NIL over the create*MergePatch functions, R-NUM + R-POOLINIT/useNumber (numbers are decoded as literals, compared only by literal equality and written back unchanged — 'number literals are carried over unchanged'; two different literals can never compare equal through a machine number type), R-MAPORDER (the diff's map ranges have no order-sensitive effect). R-CMPSHAPE (rejection clause and completeness of the walk: mixed array/object roots return the mismatch error; unequal array lengths are rejected; every element pair goes through the object diff, whose error aborts; every successful return of getDiff has passed both the walk over the modified members and the walk over the original that emits removed members as null). R-BOUNDS over the pairwise array walks. R-EXH (every JSON type, including literal-preserving numbers, is handled by matchesValue — equal members are never reported — and by getDiff — no type falls into the panicking default).",
 			NotDecided:  "the round-trip law MergePatch(A, P) = B and minimality (value-level); deletion-as-null completeness.",
 			Trusted:     commonTrusted, Assumptions: commonAssumptions,
 		},
 		{
 			ID:          "C04",
-			Rules:       []RuleUse{{Rule: "R-GATE", Bodies: []string{"v5", "codec"}, KeyHas: []string{"validity-assuming parse", "sink "}}, use("R-NIL"), use("R-TYPESTATE"), use("R-RAW"), use("R-STALERAW"), use("R-DISPATCH"), use("R-REPLACE"), use("R-COPYISO"), use("R-SCAN", "codec"), use("R-DRIVER", "codec"), {Rule: "R-KEYS", Bodies: []string{"v5"}, KeyHas: []string{"emitter", "obj != nil", "whole-map"}}, use("R-BOUNDS"), use("R-NEGIDX")},
-			Explanation: "Decided for both library bodies, as a census of potential panic sites: R-GATE (every exported []byte parameter passes json.Valid before any validity-assuming parse, which panics on ill-formed text), R-NIL (every dereference of a node/container/raw message that may be the nil spelling of null is guarded on every path), R-TYPESTATE (which==eDoc implies a non-nil doc; a nil array container is confined to the root slot and scratch nodes and every consumer tests for it), R-RAW (raw is dereferenced only where it cannot be nil), R-STALERAW (raw bytes are re-read as content only while the node is unparsed), R-DISPATCH (handlers dereference only the members the validator requires for their kind), R-REPLACE (set on an array only after a successful get of the same slot, which is what bounds its index), R-COPYISO (copy never inserts an alias of the source, so no operation sequence can make a value contain itself — the encoder would never return on a cyclic document), R-SCAN + R-DRIVER (the json.Valid gate that the panic-freedom of the validity-assuming decoder rests on accepts exactly RFC 8259), R-KEYS (inserts into the member map happen only under an obj != nil fact — a nil map write panics; the trusted emitter writes names and values only through the codec's encoder, so what it emits — and the unvalidated parser later re-reads — is well-formed). R-BOUNDS (every index / slice / make of both library bodies is proved in range from dominating linear facts, or is a reviewed exception naming the invariant it relies on — content-dependent first-byte reads, the keys splice, set-after-get), R-NEGIDX.",
+			Rules:       []RuleUse{{Rule: "R-GATE", Bodies: []string{"v5", "codec"}, KeyHas: []string{"validity-assuming parse", "sink "}}, use("R-NIL"), use("R-TYPESTATE"), use("R-RAW"), use("R-STALERAW"), use("R-DISPATCH"), use("R-REPLACE"), use("R-COPYISO"), use("R-SCAN", "codec"), use("R-DRIVER", "codec"), {Rule: "R-KEYS", Bodies: []string{"v5"}, KeyHas: []string{"emitter", "obj != nil", "whole-map"}}, use("R-BOUNDS"), use("R-NEGIDX"), use("R-PANIC"), use("R-EXH")},
+			Explanation: "Decided for both library bodies, as a census of potential panic sites: R-GATE (every exported []byte parameter passes json.Valid before any validity-assuming parse, which panics on ill-formed text), R-NIL (every dereference of a node/container/raw message that may be the nil spelling of null is guarded on every path), R-TYPESTATE (which==eDoc implies a non-nil doc; a nil array container is confined to the root slot and scratch nodes and every consumer tests for it), R-RAW (raw is dereferenced only where it cannot be nil), R-STALERAW (raw bytes are re-read as content only while the node is unparsed), R-DISPATCH (handlers dereference only the members the validator requires for their kind), R-REPLACE (set on an array only after a successful get of the same slot, which is what bounds its index), R-COPYISO (copy never inserts an alias of the source, so no operation sequence can make a value contain itself — the encoder would never return on a cyclic document), R-SCAN + R-DRIVER (the json.Valid gate that the panic-freedom of the validity-assuming decoder rests on accepts exactly RFC 8259), R-KEYS (inserts into the member map happen only under an obj != nil fact — a nil map write panics; the trusted emitter writes names and values only through the codec's encoder, so what it emits — and the unvalidated parser later re-reads — is well-formed). R-BOUNDS (every index / slice / make of both library bodies is proved in range from dominating linear facts, or is a reviewed exception naming the invariant it relies on — content-dependent first-byte reads, the keys splice, set-after-get), R-NEGIDX. R-PANIC + R-EXH (the rest of the census: the explicit panic in getDiff is the default arm of a type switch that covers every dynamic type the decoder can produce; every single-value type assertion is guarded by reflect.TypeOf equality plus a successful assertion of the other operand; every map update is on a fresh or non-nil-tested map).",
 			NotDecided:  "termination and stack exhaustion; panics inside the inherited decoder/encoder and reflect on well-formed input (trusted codec contract); run-time out-of-memory.",
 			Trusted:     commonTrusted, Assumptions: commonAssumptions,
 		},
@@ -202,8 +202,8 @@ func init() {
 		},
 		{
 			ID:          "C19",
-			Rules:       []RuleUse{use("R-MERGEWIRE", "legacy"), {Rule: "R-NIL", Bodies: []string{"legacy"}, KeyHas: []string{"doMergePatch", "merge", "prune", "Equal", ".equal", "createArrayMergePatch"}}, {Rule: "R-ABSENT", Bodies: []string{"legacy"}, KeyHas: []string{".equal", "mergeDocs"}}, {Rule: "R-MAPORDER", Bodies: []string{"legacy"}}, use("R-MERGESHAPE", "legacy"), use("R-NOPRUNE", "legacy"), use("R-ARRAYS", "legacy"), use("R-PATCHWINS", "legacy"), use("R-CMPSHAPE", "legacy")},
-			Explanation: "Decided on the legacy body: R-MERGEWIRE (mode flags and parameter order of MergePatch / MergeMergePatches), R-NIL over the merge walk and equal (no nil-node dereference), R-ABSENT (equal and mergeDocs tell an absent member from a null one with tested comma-ok lookups), R-MAPORDER (no order-sensitive effect under the map ranges of equal, getDiff, matchesValue). R-MERGESHAPE + R-NOPRUNE + R-ARRAYS + R-PATCHWINS + R-CMPSHAPE on the legacy body (same obligations as C02/C07/C03: flag pass-through, merge's return provenance, every non-null member stored, null members removed or kept by mode, new values pruned first in apply mode, arrays untouched, non-object patch wins, CreateMergePatch's rejection clause and both diff walks).",
+			Rules:       []RuleUse{use("R-MERGEWIRE", "legacy"), {Rule: "R-NIL", Bodies: []string{"legacy"}, KeyHas: []string{"doMergePatch", "merge", "prune", "Equal", ".equal", "createArrayMergePatch"}}, {Rule: "R-ABSENT", Bodies: []string{"legacy"}, KeyHas: []string{".equal", "mergeDocs"}}, {Rule: "R-MAPORDER", Bodies: []string{"legacy"}}, use("R-MERGESHAPE", "legacy"), use("R-NOPRUNE", "legacy"), use("R-ARRAYS", "legacy"), use("R-PATCHWINS", "legacy"), use("R-CMPSHAPE", "legacy"), use("R-EXH", "legacy"), {Rule: "R-PANIC", Bodies: []string{"legacy"}, KeyHas: []string{"getDiff", "matchesValue", "matchesArray"}}},
+			Explanation: "Decided on the legacy body: R-MERGEWIRE (mode flags and parameter order of MergePatch / MergeMergePatches), R-NIL over the merge walk and equal (no nil-node dereference), R-ABSENT (equal and mergeDocs tell an absent member from a null one with tested comma-ok lookups), R-MAPORDER (no order-sensitive effect under the map ranges of equal, getDiff, matchesValue). R-MERGESHAPE + R-NOPRUNE + R-ARRAYS + R-PATCHWINS + R-CMPSHAPE on the legacy body (same obligations as C02/C07/C03: flag pass-through, merge's return provenance, every non-null member stored, null members removed or kept by mode, new values pruned first in apply mode, arrays untouched, non-object patch wins, CreateMergePatch's rejection clause and both diff walks). R-EXH (legacy: the standard library's dynamic types are all handled).",
 			NotDecided:  "the merge, diff and composition laws themselves (value-level).",
 			Trusted:     commonTrusted, Assumptions: commonAssumptions,
 		},
